@@ -88,13 +88,31 @@ def session_table(fb):
     # (the last form has a line that ends in a blank which is part of a token: the character literal `#\ `)
     # (... then forms whose last line holds no closing parenthesis: a string and a |symbol| that span lines, a list whose closing
     # parenthesis is preceded by lines without one)
-    lines = ["(define x", " 1)", "x", "", "(car", "5)", "y", "(display 1)", "(list #\\ ", "  #\\a)", '"abc', 'def"', "|p", "q|", "'(a", "b", "c", ")"]
+    lines = ["(define x", " 1)", "x", "", "(car", "5)", "y", "(display 1)", "(list #\\ ", "  #\\a)", '"abc', 'def"', "|p", "q|", "'(a", "b", "c", ")",
+             # a CLOSED form the evaluator rejects with the error the reader also uses for "ran out of text" ((if) has no operands):
+             # it is an error of the submission — printed, buffer cleared — not a request for more lines
+             "(if)", "z"]
     PAY, ERR = V("value-of-x"), V("error")
     VAL = Enum(vi["Symbol"], [PAY])
     VAL.name, VAL.adt = "Symbol", "values::Value"
     void = Enum(vi["Void"], [])
     void.name, void.adt = "Void", "values::Value"
-    answers = [machine.ok(machine.none()), machine.ok(machine.some(VAL)), machine.err(ERR), machine.ok(machine.some(VAL)), machine.ok(machine.some(void))]
+    ed = dict((n, i) for i, n in fb.variants("error::ErrorData"))
+    se = dict((n, i) for i, n in fb.variants("parser::error::SyntaxError"))
+
+    def located(data):
+        e = Enum(0, [data, machine.none()])
+        e.name, e.adt = "Located", "error::Located"
+        return e
+    logic = Enum(ed["Logic"], [ERR])
+    logic.name, logic.adt = "Logic", "error::ErrorData"
+    unexpected_end = Enum(se["UnexpectedEnd"], [])
+    unexpected_end.name, unexpected_end.adt = "UnexpectedEnd", "parser::error::SyntaxError"
+    syn = Enum(ed["Syntax"], [unexpected_end])
+    syn.name, syn.adt = "Syntax", "error::ErrorData"
+    answers = [machine.ok(machine.none()), machine.ok(machine.some(VAL)), machine.err(located(logic)), machine.ok(machine.some(VAL)),
+               machine.ok(machine.some(void)), machine.ok(machine.none()), machine.ok(machine.none()), machine.ok(machine.none()), machine.ok(machine.none()),
+               machine.err(located(syn)), machine.ok(machine.some(VAL))]
     k, n_eval = [0], [0]
     ev = []
     INTERP = V("interpreter")
@@ -172,7 +190,7 @@ def rule_session(ctx, rule_buffer, rule_print, rule_one=None):
         ctx.undecided(rule_buffer, "session", "cannot follow run_with_interpreter on the scripted session (%s)" % d["stuck"], where_of(f))
         return 0
     evals = [e[1] for e in d["events"] if e[0] == "eval"]
-    want = ["(define x\n 1)", "x", "(car\n5)", "y", "(display 1)", "(list #\\ \n  #\\a)", '"abc\ndef"', "|p\nq|", "'(a\nb\nc\n)"]
+    want = ["(define x\n 1)", "x", "(car\n5)", "y", "(display 1)", "(list #\\ \n  #\\a)", '"abc\ndef"', "|p\nq|", "'(a\nb\nc\n)", "(if)", "z"]
     ctx.inst(rule_buffer, "session/submissions", {"submitted": evals})
     ctx.oblige(evals == want)
     if evals != want:
@@ -199,14 +217,20 @@ def rule_session(ctx, rule_buffer, rule_print, rule_one=None):
         elif e[0] in ("stdout", "stderr") and cur is not None:
             cur.append((e[0], _show(e[1], d)))
     printed = {t: p for t, p in out}
-    expect = {"(define x\n 1)": [], "x": [("stdout", "{value}\n")], "(car\n5)": [("stderr", "{error}\n")], "y": [("stdout", "{value}\n")], "(display 1)": []}
+    expect = {"(define x\n 1)": [], "x": [("stdout", "{value}\n")], "(car\n5)": [("stderr", "{error}\n")], "y": [("stdout", "{value}\n")], "(display 1)": [],
+              "(if)": "one-stderr", "z": [("stdout", "{value}\n")]}
     ctx.inst(rule_print, "session/output", {k: v for k, v in printed.items()})
-    good = all(printed.get(t) == p for t, p in expect.items())
+    def matches(got, p):
+        if p == "one-stderr":
+            return isinstance(got, list) and len(got) == 1 and got[0][0] == "stderr" and bool(got[0][1])
+        return got == p
+    good = all(matches(printed.get(t), p) for t, p in expect.items())
     ctx.oblige(good)
     if not good and evals == want:
-        bad = [(t, printed.get(t), p) for t, p in expect.items() if printed.get(t) != p]
+        bad = [(t, printed.get(t), p) for t, p in expect.items() if not matches(printed.get(t), p)]
         t, got, p = bad[0]
         ctx.report(rule_print, "session/output", "after submitting %r (%s) the REPL prints %s, expected %s" % (
-            t, {"(define x\n 1)": "a definition", "x": "a value", "(car\n5)": "an error", "y": "a value after an error", "(display 1)": "an unspecified value"}[t],
+            t, {"(define x\n 1)": "a definition", "x": "a value", "(car\n5)": "an error", "y": "a value after an error", "(display 1)": "an unspecified value",
+                "(if)": "a closed form rejected with `unexpected end`", "z": "a value after that"}[t],
             got, p), where_of(f))
     return 1
